@@ -55,9 +55,14 @@ def run(tier, seed):
 
     # 1. the reference itself (client view), all segmentations, with and without the peer's close
     mc = S("client", ["s200", "s204"], ["cl3", "te", "lf"] + ([] if q else ["clplus", "fold", "tecg"]), ["none", "b3", "chtr"],
-           1, 1 if q else 2, seg="all", reqseqs=[("GET",), ("HEAD", "GET")], eofs=(False, True),
+           1, 1, seg="all", reqseqs=[("GET",), ("HEAD", "GET")], eofs=(False, True),
            sizes=(1, 2, 3, 5, 8, 13, 21) if q else ())
     hc.model_check(chk, "C24_mc", mc, workers=8 if q else None, client=True)
+    if not q:
+        # two pipelined responses for two queued requests (bounded read sizes keep the graph small)
+        mc2 = S("client", ["s200", "s204"], ["cl3", "te"], ["none", "b3", "ch"], 1, 2, seg="all",
+                reqseqs=[("GET", "GET"), ("HEAD", "GET")], eofs=(False, True), sizes=(1, 2, 3, 5, 8, 13, 21, 34))
+        hc.model_check(chk, "C24_mc2", mc2, client=True)
 
     one = [("GET",), ("HEAD",), ("POST",)]
     corp = [
